@@ -232,6 +232,8 @@ AXIOMS = _Axioms()
 
 
 def s_sqrt(a):
+    if not isinstance(a, z3.ExprRef):
+        return Fraction(repr(float(a) ** 0.5))
     a = to_real(a)
     r = _sqrt_f(a)
     AXIOMS.append(z3.Implies(a >= 0, z3.And(r >= 0, r * r == a)))
@@ -351,6 +353,14 @@ def s_neg(a):
 
 
 def cast_kind(x, kind: str):
+    if not isinstance(x, z3.ExprRef) and not isinstance(x, Arr):
+        # concrete value (encoder validation / constant folding): stay concrete
+        if kind == "real" and isinstance(x, (bool, int, float, Fraction)):
+            return Fraction(repr(x)) if isinstance(x, float) else Fraction(int(x) if isinstance(x, bool) else x)
+        if kind == "int" and isinstance(x, (bool, int, float, Fraction)):
+            return int(x)
+        if kind == "bool" and isinstance(x, (bool, int, float, Fraction)):
+            return bool(x)
     if kind == "real":
         return to_real(x)
     if kind == "int":
